@@ -508,42 +508,47 @@ def rule_helpers(chk):
     # regrouping keeps user order
     ae = M.py(AE)
     md = M.find_method(ae, 'MegaGroup', '_make_data')
-    badc = [M.call_name(c) for c in M.calls(md) if M.call_name(c) in ('set', 'sorted', 'reversed', 'frozenset') or
-            (M.call_name(c) or '').endswith('.sort') or (M.call_name(c) or '').endswith('.reverse')]
-    chk.decide(not badc, 'regrouping-preserves-order', 'no-reordering-calls', node=md, file=AE, func='MegaGroup._make_data',
-               detail_bad='regrouping uses %s: user order of destinations/equations is not preserved' % badc, detail_ok='only in-order traversal and append')
-    loops = [l for l in ast.walk(md) if isinstance(l, ast.For)]
-    iters = [compact(l.iter) for l in loops]
-    ok = iters.count('equations') >= 2 and 'dest_list' in iters and 'equation.sources' in iters
-    chk.decide(ok, 'regrouping-preserves-order', 'in-order-traversal', node=md, file=AE, func='MegaGroup._make_data',
-               detail_bad='loops iterate %s' % iters, detail_ok=str(iters))
-    apps = dict((compact(c.func.value), compact(c.args[0])) for c in M.calls(md) if isinstance(c.func, ast.Attribute) and c.func.attr == 'append')
-    ok = apps.get('dest_list') == 'dest' and apps.get('all_equations') == 'equation' and apps.get('eqs_with_no_source') == 'equation' and \
-        apps.get('sources[src]') == 'equation'
-    chk.decide(ok, 'regrouping-preserves-order', 'append-only', node=md, file=AE, func='MegaGroup._make_data', detail_bad=str(apps), detail_ok=str(apps))
-    # provenance of the three per-destination containers: each is filled while walking the user's list in order
-    M.set_parents(md)
-    orig = [compact(a.value) for a in ast.walk(md) if isinstance(a, ast.Assign) and compact(a.targets[0]) == 'equations']
-    store = [a for a in ast.walk(md) if isinstance(a, ast.Assign) and isinstance(a.targets[0], ast.Subscript) and isinstance(a.value, ast.Tuple) and len(a.value.elts) == 3]
-    okp = len(store) == 1 and orig == ['group.equations']
-    why = 'per-destination triple not found'
-    if okp:
-        names = []
-        for el in store[0].value.elts:
-            names.append(compact(el.args[0]) if isinstance(el, ast.Call) and el.args else compact(el))
-        nos, srcs, alle = names
-        for cont, label in ((alle, 'all equations of the destination'), (nos, 'equations without sources')):
-            aps = [c for c in M.calls(md) if isinstance(c.func, ast.Attribute) and c.func.attr in ('append', 'extend', 'insert') and compact(c.func.value) == cont]
-            for c in aps:
-                lp = M.enclosing(c, (ast.For,))
-                if c.func.attr != 'append' or lp is None or compact(lp.iter) != 'equations' or [compact(x) for x in c.args] != [compact(lp.target)]:
-                    okp = False
-                    why = 'the list of %s is not filled by appending the loop variable of `for ... in equations` (line %d): the order the user listed is lost' % (label, c.lineno)
-            if not aps:
-                okp = False
-                why = 'the list of %s is never appended to' % label
-    chk.decide(okp, 'regrouping-preserves-order', 'containers-filled-in-listed-order', node=md, file=AE, func='MegaGroup._make_data', detail_bad=why,
-               detail_ok='all_equations and eqs_with_no_source appended from `for equation in equations`')
+    # decided on a model run: _make_data is interpreted on a group of six model equations over three destinations, listed so that
+    # neither destinations nor sources nor equations are in alphabetical / grouped order; the Group class is a model that records
+    # its argument.  Expected: destinations by first appearance; per destination the equations without sources, the per-source
+    # lists and the list of all equations, each in the order the user listed them.
+    try:
+        itm = EM.interpreter()
+        EM.model_module(itm, '<g>', 'class G:\n    def __init__(self, equations):\n        self.equations = equations\n')
+
+        def meq(name, dest, sources, hook=None):
+            # sourced equations carry exactly one of the per-source hooks each, so that a filing rule that overlooks one kind misfiles one of them
+            kw = {hook: EM.func('def %s(self, d_idx, s_idx):\n    pass' % hook)} if hook else {}
+            return EM.mock(name=name, dest=dest, sources=sources, no_source=sources is None, **kw)
+        eqs = [meq('e1', 'solid', ['solid', 'fluid'], 'initialize_pair'), meq('e2', 'fluid', None, 'initialize'), meq('e3', 'solid', None, 'post_loop'),
+               meq('e4', 'solid', ['fluid'], 'loop'), meq('e5', 'fluid', ['solid'], 'loop_all'), meq('e6', 'boundary', ['fluid', 'boundary', 'solid'], 'loop'),
+               meq('e7', 'solid', ['boundary', 'solid'], 'loop_all'), meq('e8', 'fluid', None, 'reduce')]
+        mg = EM.instance(itm, AE, 'MegaGroup', Group=itm.lookup_global('<g>', 'G'))
+        res = EM.call(itm, mg, '_make_data', EM.mock(equations=eqs, has_subgroups=False))
+
+        def nm(g):
+            x = g.args[0] if isinstance(g, AI.Inst) and g.args else g
+            return [q.attrs.get('name') for q in x] if isinstance(x, list) else repr(x)
+        got = [(d, nm(v[0]), [(k, nm(g)) for k, g in v[1].items()], nm(v[2])) for d, v in res.items()] if isinstance(res, dict) else res
+        want = [('solid', ['e3'], [('solid', ['e1', 'e7']), ('fluid', ['e1', 'e4']), ('boundary', ['e7'])], ['e1', 'e3', 'e4', 'e7']),
+                ('fluid', ['e2', 'e8'], [('solid', ['e5'])], ['e2', 'e5', 'e8']),
+                ('boundary', [], [('fluid', ['e6']), ('boundary', ['e6']), ('solid', ['e6'])], ['e6'])]
+        # the order of the *sources* of one destination is not documented: compare those as a mapping
+        def norm_(x):
+            return [(d, a, dict(m), c) for d, a, m, c in x] if isinstance(x, list) else x
+        chk.decide(norm_(got) == norm_(want), 'regrouping-preserves-order', 'model-run', node=md, file=AE, func='MegaGroup._make_data',
+                   detail_bad='for equations e1..e8 = %s the regrouping gives (destination, no-source, per-source, all) = %s; expected %s'
+                              % ([(q.attrs['name'], q.attrs['dest'], q.attrs['sources']) for q in eqs], got, want),
+                   detail_ok='8 model equations over 3 destinations: destinations by first appearance, every list in user order, one entry per source')
+        sg = [EM.mock(equations=eqs[:3], has_subgroups=False), EM.mock(equations=eqs[3:], has_subgroups=False)]
+        res2 = EM.call(itm, mg, '_make_data', EM.mock(equations=sg, has_subgroups=True))
+        ok2 = isinstance(res2, list) and len(res2) == 2 and all(isinstance(x, AI.Inst) and x.cls.node.name == 'MegaGroup' for x in res2) and \
+            [x.args[0] for x in res2] == sg
+        chk.decide(ok2, 'regrouping-preserves-order', 'sub-groups-in-listed-order', node=md, file=AE, func='MegaGroup._make_data',
+                   detail_bad='a group of two sub-groups is regrouped as %s: expected one MegaGroup per sub-group, in the listed order' % (res2,),
+                   detail_ok='one MegaGroup per sub-group, in order')
+    except (AI.Unsupported, AI.Raised) as e:
+        chk.undecided('regrouping-preserves-order', 'model-run', node=md, file=AE, func='MegaGroup._make_data', detail='not interpretable on the model group: %s' % e)
     # an equation with sources is filed under each of its sources unless it has no pair code at all
     ns = [i for i in ast.walk(md) if isinstance(i, ast.If) and 'no_source' in compact(i.test)]
     okn = len(ns) == 1
@@ -575,12 +580,6 @@ def rule_helpers(chk):
             okn, whyn = False, 'a sourced equation is not filed under every one of equation.sources'
     chk.decide(okn, 'regrouping-preserves-order', 'sourced-equations-reach-their-sources', node=ns[0] if ns else md, file=AE, func='MegaGroup._make_data',
                detail_bad=whyn, detail_ok='no_source -> source-less bucket; otherwise one entry per source')
-    first = [i for i in ast.walk(md) if isinstance(i, ast.If) and compact(i.test) == 'destnotindest_list']
-    chk.decide(bool(first), 'regrouping-preserves-order', 'destinations-by-first-appearance', node=md, file=AE, func='MegaGroup._make_data',
-               detail_bad='destinations are not collected in order of first appearance', detail_ok='if dest not in dest_list: append')
-    skip = [i for i in ast.walk(md) if isinstance(i, ast.If) and compact(i.test) == 'equation.dest!=dest' and isinstance(i.body[0], ast.Continue)]
-    chk.decide(bool(skip), 'regrouping-preserves-order', 'per-destination-filter', node=md, file=AE, func='MegaGroup._make_data',
-               detail_bad='equations are not filtered by destination', detail_ok='equation.dest != dest: continue')
     gcode = M.find_method(eq, 'CythonGroup', '_get_code')
     l2 = [l for l in ast.walk(gcode) if isinstance(l, ast.For) and compact(l.iter) == 'self.equations']
     chk.decide(bool(l2), 'regrouping-preserves-order', 'calls-in-equation-order', node=gcode, file=EQ, func='CythonGroup._get_code',
